@@ -67,6 +67,8 @@ def run(ctx):
         inputs.append(("planted", g1.planted(rng, n=rng.randint(10, ctx.pick(120, 300)))))
     for _ in range(ctx.pick(1000, 15000)):
         inputs.append(("dense", g1.small_dense(rng)))
+    for _ in range(ctx.pick(1500, 20000)):
+        inputs.append(("tight", g1.tight(rng)))
     for k in range(2, limit + 1):
         for kind in ("ladder", "path", "star"):
             inputs.append((kind + str(k), graph_realisations(rng, kind, k)))
